@@ -34,7 +34,8 @@ COMPONENTS = {"real": ["dtw.py, dtw_ndim.py, ed.py, dtw_barycenter.py, util.py (
                        "subsequence/*.py, clustering/hierarchical.py, clustering/kmeans.py (as long-lived objects on the shared pool)"],
               "stub": ["client sessions and their interleaving (seeded scheduler)", "twins: the same call in a fresh context (same representations) and on canonical contiguous copies"]}
 ASSUMPTIONS = ["bounds: mostly 3..6 series of length 2..8 (one history in 12: 7..12 series of length 9..24; one in ~40: 3..6 series of 130..190 samples, C engine only), 2..3 bivariate series, histories <= 30 ops",
-               "container independence is compared with rel. tol 1e-9 (Python 3.12 sums Python floats with compensation but NumPy scalars without: list and ndarray inputs differ in the last bit); history independence is compared bit for bit", "a call that RAISES for a container kind it does not accept (plain lists handed to the C entry points, ...) is permitted if inputs stay untouched and "
+               "container independence is compared with rel. tol 1e-9 (Python 3.12 sums Python floats with compensation but NumPy scalars without: list and ndarray inputs differ in the last bit); history independence is compared bit for bit",
+               "multi-iteration Python-engine averaging (dba_loop with max_it > 1, KMeans with use_c=False) can amplify that last bit through a tie between warping paths: for those ops the canonical twin keeps the scalar class of the items (plain lists for list / array.array items, contiguous ndarrays otherwise)", "a call that RAISES for a container kind it does not accept (plain lists handed to the C entry points, ...) is permitted if inputs stay untouched and "
                "the fresh same-representation twin raises the same way; a call that RETURNS must return the canonical value",
                "psi is kept <= window and <= the shortest series (outside that the C kernels write beyond their buffer, which is C08's subject)",
                "KMeans is seeded through the public generators; parallel=False everywhere (parallel routes are C07 / C16)"]
@@ -198,11 +199,12 @@ JUNK = 7.75
 class Pool:
     """All shared resources of one context, materialised from the setup."""
 
-    def __init__(self, setup, canonical=False):
+    def __init__(self, setup, canonical=False, float_class=False):
         import numpy as np
         self.np = np
         self.setup = setup
         self.canonical = canonical
+        self.float_class = float_class      # canonical twin of a multi-iteration Python-engine op: see _iterative_python()
         self.items = {}
         self.bases = []     # (name, object) whose content must never change
         self.ovl = {}
@@ -287,7 +289,10 @@ class Pool:
         from dtaidistance.util import SeriesContainer
         kind = c["kind"]
         if self.canonical:
-            kind = "sc_list_nd" if kind.startswith("sc_") else "list_nd"
+            if self.float_class and kind in ("list_list", "list_array"):
+                kind = "list_list"
+            else:
+                kind = "sc_list_nd" if kind.startswith("sc_") else "list_nd"
         if kind in ("list_nd", "sc_list_nd"):
             o = [np.array(self.setup["series"][i], dtype=np.double) for i in c["idxs"]]
         elif kind == "list_array":
@@ -586,6 +591,22 @@ def run_op(pool, op, alone):
         return ["exc", type(exc).__name__]
 
 
+def _iterative_python(op, creators):
+    """True for ops that iterate a Python-engine average (dtw_barycenter.dba: `sum(values) / len(values)`) more than once.
+    CPython >= 3.12 sums exact Python floats with compensation but NumPy scalars without, so the first average already differs
+    in the last bit between a list-of-lists and a list-of-ndarrays container; from the second iteration on that bit can flip a
+    tie between warping paths and the results part ways visibly (found by the thorough tier: selftest/false_alarms/).  That
+    is the interpreter's arithmetic, not the library's use of the container, and no tolerance covers it.  For these ops the
+    canonical twin keeps the scalar class of the container items (plain lists for list / array.array items, contiguous
+    ndarrays for everything else); single-step ops keep the ndarray canonical form and the 1e-9 tolerance."""
+    if op["op"] == "dba":
+        return (not op["use_c"]) and op["loop"] and op["max_it"] > 1
+    if op["op"] == "use":
+        cr = creators.get(op["obj"])
+        return bool(cr) and cr["op"] == "new_km" and not cr["use_c"]
+    return False
+
+
 def run_threads(setup, op, bump, obs, opi):
     """Concurrent callers on PRIVATE objects: every thread gets its own freshly materialised pool, so nothing is shared
     except the library itself.  Each thread's results must equal those of the same program run alone."""
@@ -733,7 +754,7 @@ def execute(history):
                     add({"class": "history-dependence", "detail": "%s returned %s here, %s when issued alone in a fresh context" % (json.dumps(op)[:200], str(live)[:160], str(twin)[:160])}, opi)
                 # 3. container independence: same call on canonical contiguous copies
                 if kind in ("pair", "npair", "matrix", "dba", "refill") and not _is_exc(live):
-                    canon = Pool(setup, canonical=True)
+                    canon = Pool(setup, canonical=True, float_class=_iterative_python(op, creators))
                     cres = run_op(canon, op, alone=True)
                     if _is_exc(cres):
                         bump("canonical_raised:" + cres[1])
@@ -742,7 +763,7 @@ def execute(history):
                                                                        % (json.dumps(op)[:200], str(live)[:160], str(cres)[:160])}, opi)
                 elif kind == "use" and not _is_exc(live):
                     # long-lived model objects too: the same object built and asked on canonical contiguous copies
-                    canon = Pool(setup, canonical=True)
+                    canon = Pool(setup, canonical=True, float_class=_iterative_python(op, creators))
                     cr = creators.get(op["obj"])
                     if cr is not None and not _is_exc(twin):
                         run_op(canon, cr, alone=True)
